@@ -90,6 +90,26 @@ pub struct FakeLauncher {
     pub worker: WorkerId,
     pub shared: LaunchRef,
     pub origin: tokio::time::Instant,
+    /// the resource descriptor the worker was started with (labels are derived from it here,
+    /// independently of the worker's label map)
+    pub desc: tako::resources::ResourceDescriptor,
+}
+
+/// The documented value of an index of a resource: the number itself for a range, the n-th
+/// value for a list, the n-th value of the flattened groups for a grouped resource.
+fn expected_label(desc: &tako::resources::ResourceDescriptor, name: &str, index: u32) -> Option<String> {
+    use tako::resources::ResourceDescriptorKind as K;
+    let item = desc.resources.iter().find(|i| i.name == name)?;
+    match &item.kind {
+        K::Range { .. } => Some(index.to_string()),
+        K::List { values } => values.get(index as usize).map(|v| v.to_string()),
+        K::Groups { groups } => groups
+            .iter()
+            .flatten()
+            .nth(index as usize)
+            .map(|v| v.to_string()),
+        K::Sum { .. } => None,
+    }
 }
 
 impl TaskLauncher for FakeLauncher {
@@ -123,9 +143,11 @@ impl TaskLauncher for FakeLauncher {
                     .indices
                     .iter()
                     .map(|i| {
-                        ctx.get_resource_label_map()
-                            .get_label(ra.resource_id, i.index)
-                            .to_string()
+                        expected_label(&self.desc, &name, i.index.as_num()).unwrap_or_else(|| {
+                            ctx.get_resource_label_map()
+                                .get_label(ra.resource_id, i.index)
+                                .to_string()
+                        })
                     })
                     .collect();
                 if labels.is_empty() {
@@ -151,10 +173,12 @@ impl TaskLauncher for FakeLauncher {
                 // a partially allocated index is always the last one
                 if let (Some(t), Some(last)) = (&told, ra.indices.last()) {
                     if last.fractions != 0 {
-                        let last_label = ctx
-                            .get_resource_label_map()
-                            .get_label(ra.resource_id, last.index)
-                            .to_string();
+                        let last_label = expected_label(&self.desc, &name, last.index.as_num())
+                            .unwrap_or_else(|| {
+                                ctx.get_resource_label_map()
+                                    .get_label(ra.resource_id, last.index)
+                                    .to_string()
+                            });
                         if t.split(',').next_back() != Some(last_label.as_str()) {
                             env_problem = Some(format!(
                                 "{var}={t}: the partially allocated index {last_label} is not the last value"
